@@ -83,9 +83,17 @@ class ThermochemIncomplete(ThermochemBase):
                 ND_H_ref, ND_S_ref, Ts, ND_Cps, self.T_ref, self.get_range())
 
     def set_range(self, range=None):
+        previous = self.range
         ThermochemBase.set_range(self, range)
         # the internal correlation checks temperatures against its own range
-        self._setup_correlation()
+        try:
+            self._setup_correlation()
+        except Exception:
+            # a range that leaves T_ref or a data point outside is refused:
+            # keep the object as it was
+            ThermochemBase.set_range(self, previous)
+            self._setup_correlation()
+            raise
     set_range.__doc__ = ThermochemBase.set_range.__doc__
 
     def has_ND_Cp(self, T=None):
